@@ -3,9 +3,9 @@ import Props.C10
 /-!
 # UncondC10 — C10: loaders / verify raise only documented errors on the named curves with NO primality hypothesis
 
-For every curve of `NamedPrimes.unconditionalCurves` (13 curves: p and n carry kernel-checked Pocklington certificates, the
+For every curve of `NamedPrimes.unconditionalCurves` (all 17 curves of the table since the last four certificates were found: p and n carry kernel-checked Pocklington certificates, the
 order of the base point is checked by kernel evaluation) the headline statements of C10 hold without any hypothesis about the
-curve, except `#E(𝔽_p) = n` where stated; for the 4 curves with one uncertified number (`…_<curve>`) with exactly that one.
+curve, except `#E(𝔽_p) = n` where stated.
 Generated from `Props/Uncond.lean` by harness/tools/primecerts/mkuncond_split.py.
 -/
 namespace UncondC10
@@ -29,10 +29,9 @@ theorem verify_total_all_decoders (hr : r ∈ unconditionalCurves) :
   intro Q hQ sig sigs dg hne H hH data allow
   exact C10.verify_total_all_decoders_named r (mem_table hr) (primeN hr) Q hQ sig sigs dg hne H hH data allow
 
-/-- all six key loaders raise only documented errors — a table-wide statement, so the four uncertified numbers appear as
-its only hypotheses -/
-theorem all_loaders_total (h1 : Nat.Prime Gen.curve_NIST384p.n) (h2 : Nat.Prime Gen.curve_NIST521p.n)
-    (h3 : Nat.Prime Gen.curve_BRAINPOOLP384r1.p) (h4 : Nat.Prime Gen.curve_BRAINPOOLP512r1.p) :
+/-- all six key loaders raise only documented errors — a table-wide statement (any uncertified number of the table would
+appear as a hypothesis; with all 34 certified there is none) -/
+theorem all_loaders_total :
     C10.ExtOK KeysWire.modelExt ∧ ∀ bs : Bytes,
       (∀ e, VK.fromDer KeysWire.modelExt bs = .error e → Documented e) ∧
       (∀ e, VK.fromPem KeysWire.modelExt bs = .error e → Documented e) ∧
@@ -40,15 +39,14 @@ theorem all_loaders_total (h1 : Nat.Prime Gen.curve_NIST384p.n) (h2 : Nat.Prime 
       (∀ e, SK.fromPem KeysWire.modelExt bs = .error e → Documented e) ∧
       (∀ c ∈ Gen.curveTable, ∀ v e, VK.fromString KeysWire.modelExt c bs v = .error e → e = .malformedPoint) ∧
       (∀ c ∈ Gen.curveTable, ∀ e, SK.fromString KeysWire.modelExt c bs = .error e → e = .malformedPoint) :=
-  C10.all_loaders_total_model (all_primes_given h1 h2 h3 h4)
+  C10.all_loaders_total_model all_primes
 
 /-- … and the ECDH loaders are those key loaders -/
-theorem ecdh_loaders_total {Pt Ent : Type} (h1 : Nat.Prime Gen.curve_NIST384p.n) (h2 : Nat.Prime Gen.curve_NIST521p.n)
-    (h3 : Nat.Prime Gen.curve_BRAINPOOLP384r1.p) (h4 : Nat.Prime Gen.curve_BRAINPOOLP512r1.p)
+theorem ecdh_loaders_total {Pt Ent : Type}
     (mkPt : Curve → Nat → Nat → Pt) (mul : Pt → Int → Res Pt) (isInf : Pt → Bool) (xOf : Pt → Res Int)
     (generate : Curve → Ent → Res (Ecdh.SKey Curve Pt)) :
     LoadersAreKeys KeysWire.modelExt mkPt (ecdhEnv KeysWire.modelExt mkPt mul isInf xOf generate) ∧
       C10.ExtOK KeysWire.modelExt :=
-  C10.ecdh_loaders_total_model (all_primes_given h1 h2 h3 h4) mkPt mul isInf xOf generate
+  C10.ecdh_loaders_total_model all_primes mkPt mul isInf xOf generate
 
 end UncondC10
